@@ -297,6 +297,21 @@ K['k13_gather_sparse_then_dense_line'] = PRO + """
   s_endpgm
 """
 
+K['k14_unawaited_scalar_load_into_wg_id_register'] = """
+  s_cmp_eq_u32 s2, 0
+  s_cbranch_scc0 L_B
+  s_load_dword s2, s[0:1], 0x10
+  s_endpgm
+L_B:
+""" + PRO + """
+  s_waitcnt lgkmcnt(0)
+""" + gaddr('v7','v8','s4','s5') + """
+  v_add_u32 v6, vcc, 9, v0
+  flat_store_dword v[7:8], v6
+  s_waitcnt vmcnt(0)
+  s_endpgm
+"""
+
 def assemble(name, src, mcpu='gfx803'):
     p = subprocess.run(['llvm-mc-14', '-arch=amdgcn', '-mcpu=' + mcpu, '-show-encoding'], input=src, capture_output=True, text=True)
     if p.returncode != 0 or 'error' in p.stderr:
